@@ -598,6 +598,56 @@ def race_rx_worker(item):
     return acc
 
 
+def early_start_worker(item):
+    """start_send is called while the CA is still claiming its address (veto window) or before it was started at all: nothing is
+    sent before the CA holds an address, and from then on the DM1 comes every cycle until stop_send; the job thread survives"""
+    _k, dll, seed = item
+    acc = Acc()
+    for (addr, start_delay) in ((0x90, 0.0), (0x90, 0.12), (0x10, 0.0), (0x10, 0.12)):
+        for cyc in (0.05, 0.1, 0.3):
+            sc = {'part': 'start_send before the address is claimed', 'dll': dll, 'address': addr, 'ca_start_delay': start_delay, 'cycle': cyc}
+            w = rt.World()
+            rt.activate(w)
+            try:
+                bus = Bus(w, base_lat=1e-3)
+                A = Stack(bus, 'A', dll=dll)
+                B = Stack(bus, 'B', dll=dll)
+                nm = j1939.Name(arbitrary_address_capable=0, identity_number=0x55, manufacturer_code=0x123)
+                ca = j1939.ControllerApplication(nm, addr)
+                A.ecu.add_ca(controller_application=ca)
+                cb = B.add_ca(0x20, name_value=0x999)
+                got = []
+                rx = j1939.Dm1(cb)
+                rx.subscribe(lambda sa, lamps, dtcs, ts: got.append((w.now, sa, len(dtcs))))
+                w.run_for(0.005)
+                t0 = w.now
+                tx = j1939.Dm1(ca)
+                src = lambda: ({'pl': 1, 'awl': 0, 'rsl': 0, 'mil': 0}, [{'spn': 100, 'fmi': 3, 'oc': 1}])
+                tx.start_send(src, cyc)
+                w.at(t0 + start_delay, lambda: ca.start(claim_delay=0.0))
+                w.run_for(1.2)
+                probs = []
+                if A.job.exc is not None:
+                    probs.append("job thread dead (%s): the cyclic DM1 came due before the CA held an address" % A.job.exc_type)
+                claimed = [f.t for f in bus.log if f.src == 'A' and f.pf == 0xEE]
+                t_ok = (claimed[0] + (0.25 if 127 < addr < 248 else 0.0)) if claimed else None
+                early = [f for f in bus.log if f.src == 'A' and f.pf != 0xEE and (t_ok is None or f.t < t_ok - 1e-6)]
+                if early:
+                    probs.append("a frame left the stack before its CA held an address")
+                if t_ok is not None and not probs:
+                    n_exp = int((t0 + 1.2 - t_ok - 0.02) / cyc) - 1
+                    n_got = len([g for g in got if g[1] == addr])
+                    if n_got < max(1, n_exp):
+                        probs.append("%d DM1 received in the %.2f s after the address was claimed, cycle %.2f s" % (n_got, t0 + 1.2 - t_ok, cyc))
+                acc.case(repr(sc), outcome=len(probs))
+                if probs:
+                    acc.violation(csig(probs[0]), sc, None, probs[:3])
+            finally:
+                w.shutdown()
+    acc.sample({'part': 'start_send before the address is claimed', 'dll': dll})
+    return acc
+
+
 def dynsub_worker(item):
     """DM1 subscribers that unsubscribe (themselves / a neighbour) from inside the callback: every other subscriber still
     receives that DM1, the next cycle reaches exactly those still registered"""
@@ -671,6 +721,8 @@ def worker(item):
         return exchange_worker(item)
     if item[0] == 'dynsub':
         return dynsub_worker(item)
+    if item[0] == 'early_start':
+        return early_start_worker(item)
     if item[0] == 'race':
         return race_worker(item)
     if item[0] == 'race_rx':
@@ -719,6 +771,7 @@ def run(tier, seed):
         for n in (1, 2, 3, 14, 15, 40):
             items.append(('exchange', dll, n, seed))
         items.append(('dynsub', dll, seed))
+        items.append(('early_start', dll, seed))
     for n in ((1, 2, 5) if quick else (1, 2, 3, 4, 5, 8)):
         items.append(('race', 'j1939-21', n, seed))
         items.append(('race_rx', 'j1939-21', n, seed))
@@ -746,6 +799,10 @@ def replay(rec):
         a.violations = [v for v in a0.violations if v['scenario'] == sc]
     elif part == 'receive thread pre-empted in the DM1 code':
         a0 = race_rx_worker(('race_rx', sc['dll'], sc['dtc_count'], rec.get('seed', 0)))
+        a = Acc()
+        a.violations = [v for v in a0.violations if v['scenario'] == sc]
+    elif part == 'start_send before the address is claimed':
+        a0 = early_start_worker(('early_start', sc['dll'], rec.get('seed', 0)))
         a = Acc()
         a.violations = [v for v in a0.violations if v['scenario'] == sc]
     elif part == 'subscriber unsubscribes inside its callback':
